@@ -48,6 +48,7 @@ structure Tables where
   unionAtMember : Bool
   impliedSchemaUnvalidated : Bool
   dupDirectiveInlineAccepted : Bool
+  listNeedsMember : Bool
   reflectOptionalRefused : Bool
   eventVarsEmpty : Bool
   symbolBaseEnum : Bool
